@@ -10,6 +10,7 @@
 From ClapModel Require Import Base.Bytes Base.Machine Base.Utf8.
 From ClapModel Require Import Parse.Cmd Parse.Build Parse.Valid Parse.Matcher Parse.Errors Parse.Validator Parse.Parser.
 From ClapModel Require Import ParseProofs.Sites.
+From ClapModel Require ParseProofs.VpKinds.
 From Coq Require Import ZArith.
 From RecordUpdate Require Import RecordSet.
 Import RecordSetNotations.
@@ -29,12 +30,7 @@ Notation T := (fun _ => True).
 Ltac okleaf := first [exact I | reflexivity | assumption].
 
 Lemma vp_parse_kind vp v k : vp_parse vp v = Some k -> parser_kind k = true.
-Proof.
-  unfold vp_parse. destruct vp;
-    repeat first [ match goal with |- context [if ?b then _ else _] => destruct b end
-                 | match goal with |- context [match ?x with Some _ => _ | None => _ end] => destruct x end ];
-    intros H; inversion H; reflexivity.
-Qed.
+Proof. apply (ClapModel.ParseProofs.VpKinds.vp_parse_kind_ind (fun k => parser_kind k = true)); reflexivity. Qed.
 
 Lemma okp_bind {A B} (Q : A -> Prop) (Q' : B -> Prop) r f :
   okp Q r -> (forall a, Q a -> okp Q' (f a)) -> okp Q' (rbind r f).
